@@ -524,7 +524,7 @@ func (d *Driver) judgeC17rounds() {
 	stallOf := func(g uint64, a, b time.Duration) time.Duration {
 		var s time.Duration
 		for _, st := range d.h.Stalls {
-			if st.GID == g && st.T >= a && st.T <= b {
+			if st.GID == g && st.T <= b && st.T+st.D >= a {
 				s += st.D
 			}
 		}
